@@ -570,7 +570,21 @@ func (t *AType) hasFunAtEnd() bool {
 }
 
 func c16Corrupt(r *Rng, line string) (string, string) {
-	switch r.Intn(7) {
+	switch r.Intn(9) {
+	case 7:
+		// a stray quote where a token starts (after a blank): a string that is not closed before the end of the line
+		var at []int
+		for i := 9; i < len(line); i++ {
+			if line[i-1] == ' ' && line[i] != ' ' {
+				at = append(at, i)
+			}
+		}
+		if len(at) > 0 {
+			i := at[r.Intn(len(at))]
+			return line[:i] + r.Pick([]string{"'", "\""}) + line[i:], "stray-quote"
+		}
+	case 8:
+		return line + r.Pick([]string{" '", " \"", " | 'rw", " \"off"}), "unclosed-string-at-end"
 	case 0:
 		return strings.Replace(line, ">", "", 1), "drop-gt"
 	case 1:
